@@ -20,6 +20,9 @@ Inductive case :=
                                              of a it keeps, in order), each decoded both ways; then a again.
                                              The model has no state: the decoding of a part is the decoding of
                                              the indices at those positions *)
+  | KLong (e : enum) (runs : list (Z * elem))
+                                          (* E.encode of a long list / tuple given run by run (count, element);
+                                             the answer is the run-length compression of the index array *)
   | KMulti (l : list (enum * input)).     (* the KRound operation on several enumerations that share their
                                              class name, one after the other in one process; the model has
                                              no state: every step is answered by its own enumeration *)
@@ -39,6 +42,19 @@ Definition round_obs (e : enum) (x : input) : obs :=
 Definition decode_obs (a : enum_array) : obs :=
   OL [ozs (indices a); ores (olist omember) (decode a); ores (olist OS) (decode_to_str a)].
 
+Definition expand (runs : list (Z * elem)) : list elem :=
+  flat_map (fun r => repeat (snd r) (Z.to_nat (fst r))) runs.
+
+(** run-length compression: (value, number of consecutive occurrences) *)
+Fixpoint rle (l : list Z) : list (Z * Z) :=
+  match l with
+  | [] => []
+  | x :: r => match rle r with
+              | (y, c) :: t => if x =? y then (y, c + 1) :: t else (x, 1) :: (y, c) :: t
+              | [] => [(x, 1)]
+              end
+  end.
+
 Definition take (l : list Z) (ps : list nat) : list Z := map (fun p => nth p l (-1)) ps.
 
 Definition run (c : case) : obs :=
@@ -52,6 +68,9 @@ Definition run (c : case) : obs :=
                     :: map (fun ps => decode_obs (mkArr (possible_values a) (take (indices a) ps))) sel
                     ++ [decode_obs a])
       end
+  | KLong e runs =>
+      ores (fun a => olist (fun p => OL [OZ (snd p); OZ (fst p)]) (rle (indices a)))
+           (encode e (Seq (expand runs)))
   | KMulti l => OL (map (fun p => round_obs (fst p) (snd p)) l)
   | KDecode a => OL [ores (olist omember) (decode a); ores (olist OS) (decode_to_str a)]
   | KIntToIndex e l => ozs (int_to_index e l)
